@@ -1,6 +1,7 @@
 package props
 
 import (
+	"go/constant"
 	"go/token"
 	"go/types"
 	"sort"
@@ -286,17 +287,34 @@ func runC05(c *Ctx) {
 					}
 				}
 			}
-			exported := false
-			for _, b := range db.Blocks {
-				for _, in := range b.Instrs {
-					if r, ok := in.(*ssa.Return); ok {
-						rv := core.ReturnErr(db, r)
-						if rv != nil && chainKeeps(rv, func(v ssa.Value) bool {
-							mi, ok := v.(*ssa.MakeInterface)
-							return ok && core.IsNamed(mi.X.Type(), core.PkgCh, "CorruptedDataErr")
-						}, 0) {
-							exported = true
+			returnsWhere := func(fn *ssa.Function, pred func(ssa.Value) bool) bool {
+				for _, b := range fn.Blocks {
+					for _, in := range b.Instrs {
+						if r, ok := in.(*ssa.Return); ok {
+							if rv := core.ReturnErr(fn, r); rv != nil && chainKeeps(rv, pred, 0) {
+								return true
+							}
 						}
+					}
+				}
+				return false
+			}
+			isExported := func(v ssa.Value) bool {
+				mi, ok := v.(*ssa.MakeInterface)
+				return ok && core.IsNamed(mi.X.Type(), core.PkgCh, "CorruptedDataErr")
+			}
+			exported := returnsWhere(db, isExported)
+			if !exported {
+				// the conversion may live in a helper whose result decodeBlock returns
+				for _, h := range core.StaticReachList(db) {
+					if h == nil || h.Blocks == nil || pkgOf(h) == nil || pkgOf(h).Path() != core.PkgCh || !returnsWhere(h, isExported) {
+						continue
+					}
+					if returnsWhere(db, func(v ssa.Value) bool {
+						call, ok := v.(*ssa.Call)
+						return ok && core.StaticFn(call) == h
+					}) {
+						exported = true
 					}
 				}
 			}
@@ -455,7 +473,13 @@ func runC05(c *Ctx) {
 		}
 		// pos += n of copy
 		okPos := false
-		for _, b := range rd.Blocks {
+		var posBlocks []*ssa.BasicBlock
+		for f := range core.StaticReach(rd, 1) {
+			if f != rb && pkgOf(f) != nil && pkgOf(f).Path() == core.PkgCompress {
+				posBlocks = append(posBlocks, f.Blocks...)
+			}
+		}
+		for _, b := range posBlocks {
 			for _, in := range b.Instrs {
 				s, ok := in.(*ssa.Store)
 				if !ok || readerField(s.Addr) != "pos" {
@@ -658,6 +682,18 @@ func runC05(c *Ctx) {
 	ruleReaderSource(c, p, "C05.source")
 	ruleReadFull(c, p, "C05.readfull")
 	ruleTableLookups(c, p, "C05.tables")
+	ruleErrChain(c, p, "C05.chain")
+	c.R.Rule("C05.errors", "E6 over package compress: the error of every read (of the source, of readBlock) reaches only failure exits - a Read that has already copied some bytes and then drops the error of the next frame (`return n, nil`) lets the caller continue with the frame after the damaged one: a corrupted middle frame is skipped silently")
+	{
+		var fns []*ssa.Function
+		for _, fn := range p.Funcs() {
+			if pkgOf(fn) != nil && pkgOf(fn).Path() == core.PkgCompress && fn.Blocks != nil {
+				fns = append(fns, fn)
+			}
+		}
+		nE := runErrDisc(c, p, fns, errDiscOpts{Rule: "C05.errors", Class: readerClass(p)})
+		c.R.Floor("C05.errors", cfg, nE, 3)
+	}
 	c.R.Assumptions = append(c.R.Assumptions,
 		"CityHash128 detects single-byte alterations; lz4 / zstd decompress what they compressed (third-party codecs, not analysed)",
 		"decided: bounds before allocation, verification before use and on every success path, error content, exhausted-after-failure typestate, refill condition, no aliasing of raw and data, frame layout agreement of writer and reader; not decided: decompress(compress(x)) = x")
@@ -1418,4 +1454,55 @@ func ruleTableLookups(c *Ctx, p *core.Program, rule string) {
 		}
 	}
 	c.R.Count("table lookups with a non-constant index["+cfg+"]", n)
+}
+
+// ---- chain (C05 / C03): errors on the way from the frame reader to the caller keep their chain
+func ruleErrChain(c *Ctx, p *core.Program, rule string) {
+	c.R.Rule(rule, "the corruption error must stay reachable with errors.As from what Do returns: in packages proto, compress and ch, an error constructor that formats (errors.Errorf / fmt.Errorf) is never handed an error value as an argument unless the constant format wraps it with %w - `Errorf(\"%s: %v\", name, err)` keeps the text and drops the chain, so *compress.CorruptedDataErr from a later frame of a block is no longer re-exported as *ch.CorruptedDataErr")
+	cfg := p.Cfg.Name
+	n := 0
+	errT := types.Universe.Lookup("error").Type()
+	for _, fn := range p.Funcs() {
+		pk := pkgOf(fn)
+		if pk == nil || fn.Blocks == nil || (pk.Path() != core.PkgProto && pk.Path() != core.PkgCompress && pk.Path() != core.PkgCh) {
+			continue
+		}
+		for _, call := range core.Calls(fn) {
+			f := core.CalleeFunc(call)
+			if f == nil || f.Pkg() == nil || f.Name() != "Errorf" || (f.Pkg().Path() != "fmt" && f.Pkg().Path() != "github.com/go-faster/errors") {
+				continue
+			}
+			args := call.Common().Args
+			if len(args) < 2 {
+				continue
+			}
+			hasErr := false
+			for _, e := range variadicElems(args[1]) {
+				v := e
+				if mi, ok := v.(*ssa.MakeInterface); ok {
+					v = mi.X
+				}
+				if ci, ok := v.(*ssa.ChangeInterface); ok {
+					v = ci.X
+				}
+				if types.Identical(v.Type(), errT) {
+					hasErr = true
+				} else if _, isPtr := v.Type().Underlying().(*types.Pointer); isPtr && types.Implements(v.Type(), errT.Underlying().(*types.Interface)) {
+					hasErr = true
+				}
+			}
+			if !hasErr {
+				continue
+			}
+			n++
+			key := core.CallKey(fn, call) + "/chain"
+			fs, ok := args[0].(*ssa.Const)
+			if ok && fs.Value != nil && strings.Contains(constant.StringVal(fs.Value), "%w") {
+				c.R.Ok(rule, key, cfg, p.Pos(call.Pos()), "wrapped with %w")
+			} else {
+				c.R.Bad(rule, key, cfg, p.Pos(call.Pos()), "an error value is formatted into a new error without %w: errors.As / errors.Is no longer reach it (a corrupted frame met while decoding this column is reported as an opaque error)")
+			}
+		}
+	}
+	c.R.Count("Errorf calls that are handed an error value["+cfg+"]", n)
 }
